@@ -17,6 +17,21 @@ class FunctionResult:
         self.inputs = []
 
 
+def split_conj(e):
+    """A and B -> [A, B];  P -> (A and B) -> [P -> A, P -> B]  (smaller queries, finer diagnostics)."""
+    if z3.is_and(e):
+        out = []
+        for c in e.children():
+            out += split_conj(c)
+        return out
+    if z3.is_implies(e):
+        a, b = e.children()
+        sub = split_conj(b)
+        if len(sub) > 1:
+            return [z3.Implies(a, x) for x in sub]
+    return [e]
+
+
 def clause_items(clauses):
     out = []
     for i, c in enumerate(clauses):
@@ -28,13 +43,13 @@ def clause_items(clauses):
 
 
 def verify_function(reg, qual, prop):
-    fi = reg.index.funcs.get(qual)
+    fi = reg.index.funcs.get(qual.split("@")[0])
     spec = reg.specs[qual]
     res = FunctionResult(fi, spec)
     if fi is None:
         res.error = "function %s not found in the repository (renamed or removed?)" % qual
         return res
-    ctx = Ctx(reg, "%s/%s" % (prop, fi.short))
+    ctx = Ctx(reg, "%s/%s%s" % (prop, fi.short, "@" + qual.split("@")[1] if "@" in qual else ""))
     ex = Executor(ctx, fi, spec)
     ctx.top_spec, ctx.top_exec = spec, ex
     st = State()
@@ -52,6 +67,8 @@ def verify_function(reg, qual, prop):
         v = named(k, "in_" + n)
         st.vars[n] = v
         inputs.append((n, k))
+    for n, q in spec.bind.items():
+        st.vars[n] = Val(FUNC, [], py=("func", reg.index.funcs[q]))
     # parameters not mentioned in the contract take their default value
     defaults = fi.node.args.defaults
     for n, d in zip(argnames[len(argnames) - len(defaults):], defaults):
@@ -75,6 +92,8 @@ def verify_function(reg, qual, prop):
             ctx.hyps.append(z3.ForAll([i], and_(z3.Select(v.terms[1], i) >= 0, z3.Select(v.terms[1], i) < a0)))
         if isinstance(k, KList):
             ctx.hyps.append(v.terms[0] >= 0)
+        if isinstance(k, KDict):
+            ex.assume_dict_wf(v)
     try:
         # touch every declared heap field read by the contract lazily: arrays are created on demand
         old = st.copy()
@@ -117,9 +136,13 @@ def verify_function(reg, qual, prop):
                 ctx.oblige(final, "post:cases-exhaustive", or_(*[c for _, c in cases]), "post", fi.node.lineno)
             for name, e in clause_items(spec.ensures):
                 cl = ex.eval_spec(e, final)
-                for cn, cc in cases:
-                    ctx.oblige(final, "post%s%s" % (name if name.startswith("#") else ":" + name, "[%s]" % cn if cn else ""),
-                               implies(cc, cl), "post", fi.node.lineno)
+                parts = split_conj(cl)
+                for pi, part in enumerate(parts):
+                    suffix = "" if len(parts) == 1 else ".%d" % pi
+                    for cn, cc in cases:
+                        ctx.oblige(final, "post%s%s%s" % (name if name.startswith("#") else ":" + name, suffix,
+                                                          "[%s]" % cn if cn else ""),
+                                   implies(cc, part), "post", fi.node.lineno)
             # frame: what the contract does not list as modified is proved unchanged
             a0 = z3.Int("alloc0")
             for key in sorted(set(final.heap) | set(old.heap)):
@@ -146,6 +169,7 @@ def verify_function(reg, qual, prop):
     except OutOfSubset as e:
         res.error = str(e)
         return res
+    res.ctx = ctx
     res.dropped = ctx.dropped
     res.inlined = sorted(ctx.inlined)
     res.called = sorted(ctx.called)
@@ -211,11 +235,16 @@ def ground_sqrt(body):
         return body, [], bound[0]
     # innermost first so that nested sqrt terms are replaced consistently
     order = sorted(apps.values(), key=lambda a: len(a.sexpr()))
-    subs, defs = [], []
+    subs, defs, seen_args = [], [], []
     for a in order:
         arg = z3.substitute(a.arg(0), *subs) if subs else a.arg(0)
         sv = z3.Real(uid("sqrtv"))
         defs.append(z3.Implies(arg >= 0, z3.And(sv >= 0, sv * sv == arg)))
+        # sqrt is a function: equal arguments give equal values (congruence, lost by the replacement otherwise)
+        if len(seen_args) < 12:
+            for arg2, sv2 in seen_args:
+                defs.append(z3.Implies(arg == arg2, sv == sv2))
+        seen_args.append((arg, sv))
         subs.append((a, sv))
     body = [z3.substitute(b, *subs) for b in body]
     return body, defs, bound[0]
@@ -237,13 +266,31 @@ def package(reg, ctx, res):
             sym_cache[k] = (decl_names(e, set()), e)
         return sym_cache[k][0]
 
+    incompat = {}
+
+    def incompatible(pc_o, pc_h):
+        """the hypothesis is guarded by a path condition that cannot hold together with the obligation's:
+        the hypothesis is vacuous there (e.g. facts of a loop body seen from after the loop)"""
+        key = (pc_o.get_id(), pc_h.get_id())
+        if key not in incompat:
+            sv = z3.Solver()
+            sv.set("timeout", 200)
+            sv.add(pc_o, pc_h)
+            incompat[key] = (sv.check() == z3.unsat, pc_o, pc_h)
+        return incompat[key][0]
+
     for o in ctx.obls:
         goal = z3.Not(o.claim)
         hyps = ctx.hyps[:o.hyps]
         # relevance filter
         cone = set(syms(goal)) | set(syms(o.pc))
         always, pending = [], []
+        pruned = False
         for i, h in enumerate(hyps):
+            g = ctx.hyp_pc.get(i)
+            if g is not None and o.kind != "cover" and not z3.is_true(o.pc) and incompatible(o.pc, g):
+                pruned = True
+                continue
             d = ctx.hyp_defs.get(i)
             if d is None:
                 always.append(h)
@@ -264,7 +311,7 @@ def package(reg, ctx, res):
                     rest.append((d, h))
             pending = rest
         variants = [("smt2", hyps)]
-        if pending:
+        if pending or pruned:
             variants.append(("smt2_rel", always + chosen))
         rec = dict(name=o.name, kind=o.kind, carry=o.carry, line=o.line)
         for key, hs in variants:
